@@ -43,8 +43,9 @@ def hoptsOfJson (j : Json) : Option HOpts := do
   let cr ← getRat j "cr"
   let thr ← getRat j "thr"
   let fix ← getBool j "fix"
+  let vt : Option Rat := getRat j "vt"
   pure { violationRelaxation := vr, constraintRelaxation := cr, equalityThreshold := thr,
-         fixMinimizedValues := fix }
+         fixMinimizedValues := fix, violationTolerance := vt }
 
 def ivlJ (v : EIvl) : Json := Json.arr #[v.lo.toJson, v.hi.toJson]
 def ivlsJ (l : List EIvl) : Json := Json.arr (l.map ivlJ).toArray
